@@ -4427,6 +4427,10 @@ EmitModVSib:
     // in 16-bit mode, so this may fail.
     const uint32_t kBaseGpIdx = (kX86MemInfo_BaseGp | kX86MemInfo_Index);
 
+    // Not supported in 16-bit addresses (a label base combined with a 16-bit index would otherwise be dropped).
+    if (ASMJIT_UNLIKELY(rm_info & (kX86MemInfo_BaseRip | kX86MemInfo_BaseLabel)))
+      goto InvalidAddress;
+
     if (rm_info & kBaseGpIdx) {
       // ==========|> [BASE + INDEX + DISP16].
       uint32_t mod;
